@@ -102,8 +102,8 @@ Inv_Pack2 ==
 
 Emit == Terminal =>
     PrintT(<<"EMIT", ToJson([d |-> di, K |-> K, V |-> V, Vvis |-> VisibleVals, consistent |-> Consistent, mod |-> mod, eqexp |-> (mod = NoMod \/ V2 = V),
-                             p |-> [st |-> p.st, out |-> p.out, err |-> p.err, errv |-> GenErr(dp, p.err, TRUE, p.hookname # ""),
-                                    errn |-> GenErr(dp, p.err, FALSE, p.hookname # ""), writes |-> p.writes],
+                             p |-> [st |-> p.st, out |-> p.out, err |-> p.err, errv |-> GenErrP(dp, p.err, TRUE, p.hookname # ""),
+                                    errn |-> GenErrP(dp, p.err, FALSE, p.hookname # ""), writes |-> p.writes],
                              u |-> IF m.st = "none" THEN NoMach
                                    ELSE [st |-> m.st, cur |-> m.cur, result |-> m.result, err |-> m.err],
                              p2 |-> IF p2.st = "none" THEN NoMach ELSE [st |-> p2.st, out |-> p2.out, err |-> p2.err]])>>)
